@@ -303,9 +303,16 @@ def body_slice(case):
     c = case["c"]
     if c is None or c <= 0:
         return ["degenerate-sums-skipped"]
+    if case["kind"] == "lattice" and int(abs(float(P.sum())) * 100) % 3 == 0:
+        # a cloud of whole numbers handed over as an integer-typed array (counts): the crossings are fractional all the same
+        Pi = np.round(P)
+        si = Pi.sum(axis=1)
+        if si.min() < c < si.max():
+            P = Pi.astype(np.int64)
     P0 = P.copy()
-    with calling("proj_P_to_simplex"):
-        Q = np.asarray(dreye.proj_P_to_simplex(P, c))
+    with calling(f"proj_P_to_simplex ({P.dtype})"):
+        Q = np.asarray(dreye.proj_P_to_simplex(P, c), dtype=float)
+    P = np.asarray(P, dtype=float)
     check(np.array_equal(P, P0), "slice:input-modified", "input modified")
     check(Q.ndim == 2 and Q.shape[1] == P.shape[1] and Q.shape[0] >= 1, "slice:shape", f"{Q.shape}")
     span = float(np.max(P.max(0) - P.min(0))) or 1.0
